@@ -112,6 +112,14 @@ VerdictHD(p, e, s) ==
             ELSE IF e.pub # pk THEN V("wif-public-key", Cut(pk), Cut(e.pub))
             ELSE IF \E n \in 1..Len(p.cfg.nets) : e.fornet[n] # (p.cfg.nets[n].wif = e.netid) THEN V("wif-network", e.netid, e.fornet)
             ELSE OK
+    [] e.op = "HDPathStr" -> OK      \* replay-only op (TraceBase.ConcurrentReplayVerdict compares its repetitions)
+    [] e.op = "ShortKeyString" ->
+         \* a short scalar is padded on the left to 32 bytes in the 82-byte payload, and the string parses back to itself
+         LET want == Rep(0, 32 - Len(e.key)) \o e.key IN
+         IF e.plen # 82 THEN V("short-scalar-payload-length", 82, e.plen)
+         ELSE IF e.marker # 0 \/ e.scalar # want THEN V("short-scalar-padding", Cut(want), Cut(e.scalar))
+         ELSE IF ScalarOK(want) /\ (~e.reparse \/ e.restr # e.str) THEN V("short-scalar-string-not-parsable", "round trip", e.reparse)
+         ELSE OK
     [] e.op = "PartsPurity" ->
          \* C15: a key built from caller-owned slices never writes to them (nor behind them)
          IF e.argmod THEN V("argument-memory-modified", "unchanged", e.which) ELSE OK
